@@ -474,6 +474,90 @@ def hot_case(rep, args, case_no, rng, findings):
         shutil.rmtree(base, ignore_errors=True)
 
 
+def compaction_case(rep, args, case_no, rng, findings):
+    """The real compaction worker beside the real flush worker (C13, thorough tier: one case takes 1-2 minutes).
+    One connection writes without pause (a few ms apart) so that every 250 ms flush window yields a segment; after a
+    hundred-odd segments the worker's next check (every 60 s) compacts ten of them while flushes go on. When the log shows
+    the compaction, the writer stops, the process is shut down gracefully (SIGINT: buffers flushed) and restarted twice:
+    on the object store alone (WAL directory emptied) and on everything. Both must serve, for every key, the state after
+    all of its commands (all were acknowledged well before the shutdown)."""
+    base = os.path.join(target_dir(), "e2e", "persist.%s.%d.%d" % (args.extra.get("prop", "x"), args.shard, os.getpid()), "compact%d" % case_no)
+    shutil.rmtree(base, ignore_errors=True)
+    d, w = os.path.join(base, "d"), os.path.join(base, "w")
+    os.makedirs(d); os.makedirs(w)
+    log = os.path.join(base, "server.log")
+    n0 = len(findings)
+    keys = all_keys(1)
+    hist = {k: KeyHist() for k in keys}
+    witness = dict(case=case_no, kind="compaction", seed=args.seed, shard=args.shard)
+    rep.count("compaction_cases")
+    srv, port, ready, why = start_server(args.shard, d, w, log)
+    if not ready:
+        rep.inconclusive("compaction case: server not ready: " + why[:200])
+        return
+    cl = Client(port, timeout=30.0)
+    t0 = time.time()
+    sent = 0
+    seen_at = None
+    restarts = 0
+    restart_at = rng.choice([None, 12.0, 20.0])   # one SIGKILL + restart on the way in some cases: segments and WAL carry over
+    while time.time() - t0 < 130:
+        plan = gen_plan(rng, 0, 1, 20, False)[0]
+        for cmd in plan.cmds:
+            hist[cmd[1]].push(0, sent, cmd, 0)
+            cl.send(wire(cmd))
+            r = cl.recv_replies(1, timeout=30.0)
+            if not r:
+                rep.inconclusive("compaction case: reply missing while writing")
+                srv.kill9()
+                return
+            sent += 1
+            time.sleep(0.004)
+        rep.d["evaluations"] += len(plan.cmds)
+        if restart_at and restarts == 0 and time.time() - t0 > restart_at:
+            cl.close()
+            srv.kill9()
+            srv, port, ready, why = start_server(args.shard, d, w, log)
+            if not ready:
+                findings.append(("C11", "C11|e2e|server-does-not-start-on-its-own-files|compaction-case", why, dict(witness)))
+                return
+            cl = Client(port, timeout=30.0)
+            restarts += 1
+        try:
+            txt = open(log, "rb").read()
+        except OSError:
+            txt = b""
+        if b"Compaction complete" in txt:
+            if seen_at is None:
+                seen_at = time.time()
+                rep.count("compactions_observed")
+            elif time.time() - seen_at > 1.0:
+                break
+    nseg = len([f for f in os.listdir(os.path.join(d, "redis-stream", "segments"))]) if os.path.isdir(os.path.join(d, "redis-stream", "segments")) else 0
+    rep.maxc("segments_on_disk", nseg)
+    rep.count("commands_acked", sent)
+    cl.close()
+    if seen_at is None:
+        rep.count("compaction_not_observed_within_130s")
+    time.sleep(0.9)   # at least three flush windows with nothing new
+    if not srv.sigint(timeout=60.0):
+        findings.append(("C09", "C09|e2e|graceful-shutdown-hangs", "SIGINT did not end the process within 60 s", dict(witness)))
+    acked = {k: len(hist[k].cmds) for k in keys}
+    c1 = os.path.join(base, "store_only")
+    shutil.copytree(d, os.path.join(c1, "d")); os.makedirs(os.path.join(c1, "w"))
+    for name, (dd, ww) in (("store-only", (os.path.join(c1, "d"), os.path.join(c1, "w"))), ("store+wal", (d, w))):
+        snap, why = start_and_snapshot(rep, args.shard, dd, ww, keys, log)
+        if snap is None:
+            if "ports:" not in why and "rc=None" not in why:
+                findings.append(("C13", "C13|e2e|recovery-fails-after-compaction|%s" % name, why, dict(witness)))
+            continue
+        rep.count("recoveries_after_compaction")
+        judge(rep, findings, hist, snap, acked, "after-compaction-and-graceful-shutdown", dict(witness, variant=name, compaction_seen=seen_at is not None), "sigint",
+              prop="C13", extra="|%s|%s" % (name, "compaction-ran" if seen_at else "no-compaction"))
+    if len(findings) == n0 and not os.environ.get("VH_KEEP"):
+        shutil.rmtree(base, ignore_errors=True)
+
+
 def judge(rep, findings, hist, snap, acked, where, witness, prev_mode, prop="C09", extra=""):
     ok = True
     for k, st in snap.items():
@@ -685,12 +769,16 @@ def main():
     if not os.path.exists(bin_path("server-persistent")):
         build_bins()
     ncases = args.get_int("cases", 9 if args.thorough() else 3)
+    if prop == "C13":
+        ncases = args.get_int("cases", 1)
     findings = []
     for c in range(ncases):
         rng = args.rng(c)
         n0 = len(findings)
         try:
-            if c % 3 == 2:
+            if prop == "C13":
+                compaction_case(rep, args, c, rng, findings)
+            elif c % 3 == 2:
                 hot_case(rep, args, c, rng, findings)
             else:
                 run_case(rep, args, c, rng, findings)
